@@ -37,7 +37,7 @@ func (r *verifNetResolver) LookupHost(ctx context.Context, host string) ([]strin
 	if !ok {
 		return nil, errors.New("lookup failed")
 	}
-	return []string{"10.0.0.1", "::1"}, nil
+	return []string{"10.0.0.1", "::1", "::ffff:10.1.2.3"}, nil
 }
 func (r *verifNetResolver) LookupSRV(context.Context, string, string, string) (string, []*net.SRV, error) {
 	return "", nil, nil
@@ -103,7 +103,7 @@ func verifH_C56_pacing() {
 			verifCover("three-lookups")
 		}
 		for _, u := range cc.updates {
-			verifAssert(len(u.Addresses) == 2 && u.Addresses[0].Addr == "10.0.0.1:443" && u.Addresses[1].Addr == "[::1]:443", "addresses are emitted as host:port with IPv6 bracketed")
+			verifAssert(len(u.Addresses) == 3 && u.Addresses[0].Addr == "10.0.0.1:443" && u.Addresses[1].Addr == "[::1]:443" && u.Addresses[2].Addr == "[::ffff:10.1.2.3]:443", "addresses are emitted as host:port with IPv6 (including IPv4-mapped IPv6) bracketed")
 		}
 		n := len(nr.times)
 		d.Close()
